@@ -38,8 +38,8 @@ def _cases() -> List[dict]:
 
 def plan(tier: str) -> dict:
     return {
-        "runs": 12000 if tier == "quick" else 400000,
-        "budget": 60 if tier == "quick" else 900,
+        "runs": 30000 if tier == "quick" else 400000,
+        "budget": 150 if tier == "quick" else 900,
         "cases": _cases(),
         "chunk": 30,
         "rule": "Lifespan application scripts at startup {complete fast/slow/later than startup_timeout, failed (plain, with "
